@@ -112,6 +112,7 @@ type c18Run struct {
 	revHeights map[uint64]bool // numbers at which the client took a header under a non-zero height revision
 	stop       bool            // the client's store is damaged by an already reported defect: end the run
 	everMain   map[common.Hash]bool
+	upgraded   map[common.Hash]bool // headers installed by a governance upgrade
 	accepted   int
 	forks      int
 	refused    int
@@ -217,6 +218,10 @@ func (r *c18Run) submit(s *eth.Submission, crash world.CrashPoint) {
 	blockTime := n.TimeAt(res.Height)
 	verdict, reason := r.m.Judge(s, blockTime)
 	ctxName := r.context(s.H)
+	sigCtx := ctxName
+	if r.upgraded[s.H.ParentHash] {
+		sigCtx += "@parent-set-by-upgrade" // the parent is the header a governance upgrade installed
+	}
 	w.Stats.Inc("submit-" + s.Kind)
 	w.Log.Add("  %s -> code=%d model=%s/%s ctx=%s ahead=%ds log=%s", label, res.Code, verdict, reason, ctxName,
 		int64(s.H.Time)-blockTime.Unix(), c18Log(res.Log, 120))
@@ -259,7 +264,7 @@ func (r *c18Run) submit(s *eth.Submission, crash world.CrashPoint) {
 			"client accepted header %d/%s (parent %s, time %d, produced as %q) in host block %d at %s, but the statement demands refusal: %s",
 			num, hashStr, parentStr, s.H.Time, s.Kind, res.Height, blockTime.UTC().Format(time.RFC3339Nano), reason)
 	case !res.OK() && verdict == eth.Accept:
-		c.Violate("C18/rejected-valid/"+ctxName,
+		c.Violate("C18/rejected-valid/"+sigCtx,
 			"client refused valid header %d/%s (parent %s stored, time %d, produced as %q, context %s; client tip %s) in host block %d at %s: %s",
 			num, hashStr, parentStr, s.H.Time, s.Kind, ctxName, c18Short(r.tip), res.Height, blockTime.UTC().Format(time.RFC3339Nano), c18Log(res.Log, 300))
 	}
@@ -486,6 +491,36 @@ func (r *c18Run) submitNode(nd *eth.Node, crash world.CrashPoint) {
 	r.submit(eth.NewSubmission(nd.H, kind), crash)
 }
 
+// upgrade lets governance move the client one header ahead: MsgUpgradeClient with a valid,
+// never submitted child of the header the client follows.  Afterwards that header is one
+// the client has: its children are acceptable and its consensus state is exposed.
+func (r *c18Run) upgrade() {
+	c, w, n := r.c, r.w, r.n
+	nd := r.newChild(r.tipNode())
+	r.catchUp(nd.H.Time)
+	old, found := n.ClientState(c18ChainName)
+	if !found {
+		return
+	}
+	cs := *old.(*ethclient.ClientState)
+	cs.Header = *c18ToWire(eth.NewSubmission(nd.H, "upgrade"))
+	cons := &ethclient.ConsensusState{Timestamp: nd.H.Time, Number: clienttypes.NewHeight(0, nd.H.Number.Uint64()), Root: nd.H.Root.Bytes()}
+	ctx := n.SetupCtx().WithBlockTime(w.TimeOn(n))
+	c.Check(n.App.TIBCKeeper.ClientKeeper.UpgradeClient(ctx, c18ChainName, &cs, cons))
+	_, err := w.Block(n, nil, world.NoCrash)
+	c.Check(err)
+	r.m.Record(nd.H)
+	r.accepted++
+	if r.upgraded == nil {
+		r.upgraded = map[common.Hash]bool{}
+	}
+	r.upgraded[nd.Hash] = true
+	w.Stats.Inc("client-upgraded-by-governance")
+	w.Log.Add("eth client upgraded by governance to %d/%s", nd.H.Number.Uint64(), c18Short(nd.Hash))
+	c.Op("upgrade")
+	r.checkChain("after-upgrade")
+}
+
 func runC18Tree(c *core.Ctx, crashes bool) {
 	ch := c.Ch
 	hs, err := eth.MainnetHeaders()
@@ -580,6 +615,9 @@ func runC18Tree(c *core.Ctx, crashes bool) {
 		case 7: // host clock advance
 			w.Tick(time.Duration(ch.Range(1, 40)) * time.Second)
 			w.Stats.Inc("clock-advance")
+			if ch.Int(5) == 1 { // (drawn last in the step: recorded runs replay unchanged)
+				r.upgrade()
+			}
 		case 9: // empty host block (possibly crashing)
 			_, err := w.Block(n, nil, crash)
 			c.Check(err)
